@@ -383,7 +383,7 @@ func genDocs(t *rapid.T, revType string) []doc {
 	}
 	var docs []doc
 	// meta objects
-	switch rapid.IntRange(0, 11).Draw(t, "metaClass") {
+	switch rapid.IntRange(0, 19).Draw(t, "metaClass") {
 	case 0:
 		// no meta
 	case 1:
@@ -396,7 +396,7 @@ func genDocs(t *rapid.T, revType string) []doc {
 		docs = append(docs, metaFor(revType, "pkg"))
 	}
 	n := rapid.IntRange(0, 6).Draw(t, "nobj")
-	odd := rapid.IntRange(0, 5).Draw(t, "oddClass") // 0: a disallowed kind; 1: an unknown kind
+	odd := rapid.IntRange(0, 9).Draw(t, "oddClass") // 0: a disallowed kind; 1: an unknown kind
 	for i := 0; i < n; i++ {
 		k := rapid.SampledFrom(goodKinds[revType]).Draw(t, "okind")
 		d := doc{Kind: k, Name: fmt.Sprintf("o%d", i)}
@@ -508,7 +508,7 @@ var junk = []byte("#!/bin/sh\necho this is not a package stream\n")
 // genImage wraps the stream (and possibly a decoy stream that must NOT be the
 // one installed) into an image of a drawn shape.
 func genImage(t *rapid.T, s, decoy []byte) builtImage {
-	shape := rapid.SampledFrom([]string{"annotated", "annotated", "annotated+files", "annotated+decoy", "plain", "plain+layers", "plain+override", "base+examples", "two-base", "no-stream", "plain+whiteout"}).Draw(t, "shape")
+	shape := rapid.SampledFrom([]string{"annotated", "annotated", "annotated", "annotated+files", "annotated+files", "annotated+decoy", "plain", "plain", "plain+layers", "plain+layers", "plain+override", "base+examples", "two-base", "no-stream", "plain+whiteout"}).Draw(t, "shape")
 	pf := fileSpec{Name: streamFile, Data: s}
 	df := fileSpec{Name: streamFile, Data: decoy}
 	var layers []layerSpec
